@@ -15,6 +15,8 @@ let zs = dec_of_z
 let nz s = xb_n_of_z (z_of_dec s)
 let ns x = dec_of_z (xb_z_of_n x)
 let opt = function None -> "NONE" | Some v -> zs v
+(* a function that can panic: None is the panic (its equality theorem shows that the loop fuel, if any, suffices) *)
+let optp = function None -> "PANIC" | Some v -> zs v
 let zlt a b = xb_zltb a b
 let p61 = z_of_dec "2305843009213693952"
 let p63 = z_of_dec "9223372036854775808"
@@ -35,7 +37,7 @@ let xl (f : string) (a : string list) : string =
   | "maxPaddingSize", [mtu; t; fs; ex] -> zs (xl_protocol_maxPaddingSize (z mtu) (z t) (z fs) (z ex))
   | "buildLowEntropyParams", [m] -> let ((c, w), e) = xl_protocol_buildLowEntropyParams (z m) in zs c ^ " " ^ zs w ^ " " ^ bool_s e
   | "lowEntropyEncodedPayloadLen", [n; m] ->
-    (match xl_protocol_lowEntropyEncodedPayloadLen (z n) (z m) with None -> "NONE" | Some (v, e) -> zs v ^ " " ^ bool_s e)
+    (match xl_protocol_lowEntropyEncodedPayloadLen (z n) (z m) with None -> "PANIC" | Some (v, e) -> zs v ^ " " ^ bool_s e)
   | "maxFragmentSize", [mtu; t; m] -> let (v, e) = xl_protocol_maxFragmentSize (z mtu) (z t) (z m) in zs v ^ " " ^ bool_s e
   | "isSessionProtocol", [p] -> bool_s (xl_protocol_isSessionProtocol (z p))
   | "isDataProtocol", [p] -> bool_s (xl_protocol_isDataProtocol (z p))
@@ -43,7 +45,7 @@ let xl (f : string) (a : string list) : string =
   | "isDataAckProtocol", [p] -> bool_s (xl_protocol_isDataAckProtocol (z p))
   | "isLowEntropyProtocol", [p] -> bool_s (xl_protocol_isLowEntropyProtocol (z p))
   | "isValidLowEntropyRotation", [r] -> bool_s (xl_protocol_isValidLowEntropyRotation (z r))
-  | "lowBits", [n] -> opt (xl_protocol_lowBits (z n))
+  | "lowBits", [n] -> optp (xl_protocol_lowBits (z n))
   | "rotateLowEntropyMask", [m; r; i] -> zs (xl_protocol_rotateLowEntropyMask (z m) (z r) (z i))
   | _ -> "?"
 
@@ -81,7 +83,8 @@ let model (f : string) (a : string list) : string =
   | "isValidLowEntropyRotation", [r] -> bool_s (m_valid_rotation (z r))
   | "lowBits", [n] -> if zlt (z n) Z0 then "-" else ns (m_lowbits (nz n))
   | "rotateLowEntropyMask", [m; r; i] ->
-    if below m p64 && below i p63 then ns (m_rotate_mask (nz m) (z r) (nz i)) else "-"
+    if below m p64 && below i p63 && zlt (xb_zopp (xb_zadd p32 (z "1"))) (xb_zadd (z r) (z r)) && zlt (xb_zadd (z r) (z r)) p32
+    then ns (m_rotate_mask (nz m) (z r) (nz i)) else "-"
   | _ -> "?"
 
 let () =
